@@ -170,6 +170,10 @@ def native_replay(cfile, draws, workdir, flags=(), expect=None):
             if m: same = any(i == m.group(1) for i, _ in fails)
             elif any(k in expect for k in ('dereference failure', 'double free', 'pointer relation', 'free argument', 'pointer arithmetic')): same = bool(san)
             else: same = any(expect[:60] in t for _, t in fails)
+            # the concrete run can die of a memory error (ASan) before it reaches the assertion the solver reported for the same schedule:
+            # both are failures of this run (cbmc --stop-on-fail names one violated property), so this is a reproduction
+            if not same and any('AddressSanitizer' in x or x == 'SEGV' for x in san) and not fails:
+                return True, detail + ' (memory error before the assertion the solver reported)'
             if not same: return False, 'native run fails differently: ' + detail
         return True, detail
     if 'ASSUME-FAIL' in p.stdout: return False, 'native run left the assumed region (assume failed)'
